@@ -1613,6 +1613,7 @@ WITNESS = {
     "C01-F4": "__all__ = []\ndef f(): ...\n",
     "C01-F5": "x = 1\n",
     "C01-F6": "from typing import overload\n@overload\ndef f(a: int) -> int: ...\n@overload\ndef f(a: str) -> str: ...\n",
+    "C01-F7": "from m.C import y\nclass C:\n    @y.setter\n    def y(self): ...\n",
 }
 
 
@@ -1641,6 +1642,11 @@ def replay_witnesses(ctx):
         ctx.witness("C01-F5", True)
     m = visit(WITNESS["C01-F6"])
     ctx.witness("C01-F6", "f" not in m.members)
+    try:
+        visit(WITNESS["C01-F7"])
+        ctx.witness("C01-F7", False)
+    except KeyError:
+        ctx.witness("C01-F7", py_gap_f7(ast.parse(WITNESS["C01-F7"]), "m"))
 
 
 # =====================================================================================================================
